@@ -349,12 +349,16 @@ def validate_trace(events, module="DocTrace", cfg="DocTrace.cfg", shard=4000, ta
         if r["violation"] is not None:
             log("\n".join(r["lines"][-40:]))
             raise ToolError("trace spec %s did not accept shard %d (%s)" % (module, k, r["violation"]))
-        badsets = tagged_lines(r["lines"], "BADSET")
+        counts = tagged_lines(r["lines"], "BADCOUNT")
         nts = tagged_lines(r["lines"], "NONTRIVIAL")
-        if len(badsets) != 1:
+        bads = tagged_lines(r["lines"], "BAD")
+        if len(counts) != 1 or int(counts[0]) != len(bads):
             log("\n".join(r["lines"][-40:]))
-            raise ToolError("trace spec %s: no BADSET line for shard %d" % (module, k))
-        bad = [(sh[int(a) - 1][0], b) for a, b in re.findall(r'<<(\d+), "([^"]+)">>', badsets[0])]
+            raise ToolError("trace spec %s: inconsistent BAD report for shard %d" % (module, k))
+        bad = []
+        for b in bads:
+            m = re.match(r'(\d+), "([^"]+)"$', b)
+            bad.append((sh[int(m.group(1)) - 1][0], m.group(2)))
         nt = int(nts[0]) if nts else 0
         return bad, nt, r["states"], r["distinct"]
 
